@@ -202,4 +202,43 @@ pub open spec fn field_defaultable(reg: &TypeRegistry, t: Type) -> bool {
         None => false,
     }
 }
+
+// ---------- C03 "every other description fails" read backwards: an error has a reason ----------
+/// some `doc = <not a string literal>` attribute
+pub open spec fn has_doc_bad(a: Seq<Attribute>) -> bool { exists|k: int| 0 <= k < a.len() && doc_bad(#[trigger] a[k]) }
+/// some attribute `name(<negative integer literal>)` (every such attribute is converted to usize as it is met)
+pub open spec fn neg_attr(a: Seq<Attribute>, name: Seq<char>) -> bool {
+    exists|k: int| 0 <= k < a.len() && is_int_attr(#[trigger] a[k], name) && a[k]->Function_1@[0]->IntLiteral_0 < 0
+}
+/// the reasons for which the attribute block of a type is rejected
+pub open spec fn attrs_bad(a: Seq<Attribute>) -> bool {
+    has_doc_bad(a) || neg_attr(a, "size"@) || neg_attr(a, "singleton"@) || neg_attr(a, "align"@)
+}
+/// the reasons for which the field block rejects a statement that is a plain field
+pub open spec fn field_stmt_bad(st: TypeStatement) -> bool {
+    st.field is Vftable || has_doc_bad(st.attributes.0@) || neg_attr(st.attributes.0@, "address"@)
+}
+/// the field block fails only for a bad field statement; a `vftable` statement counts as one here because the
+/// conversion of its functions has error causes of its own (C04, C05), which this predicate does not enumerate
+pub open spec fn fields_bad(stmts: Seq<TypeStatement>) -> bool { exists|j: int| 0 <= j < stmts.len() && field_stmt_bad(#[trigger] stmts[j]) }
+pub open spec fn has_base_region(rs: Seq<Region>) -> bool { exists|k: int| 0 <= k < rs.len() && (#[trigger] rs[k]).is_base }
+/// `type_definition::build` returned an error: the reasons.  For a description without vftable block, base field,
+/// impl block and `defaultable` (the explicit disjuncts below name what is *not* analysed further) the error means
+/// exactly one of the causes C03 lists: a malformed attribute, an unrealisable layout, an unrealisable alignment
+pub open spec fn type_rejection_explained(reg0: &TypeRegistry, scope: Seq<ItemPath>, def: grammar::TypeDefinition, impl_block: Option<grammar::FunctionBlock>,
+                                          reg: &TypeRegistry, p: ItemPath) -> bool {
+    let a = def.attributes.0@; let n = a.len() as int; let stmts = def.statements@;
+    ||| attrs_bad(a)
+    ||| fields_bad(stmts)
+    ||| has_ident(a, "defaultable"@, n)
+    ||| impl_block is Some
+    ||| exists|pend: Seq<(Option<usize>, Region)>, target: Option<usize>, align: Option<usize>|
+            #![trigger fields_built(reg0, scope, stmts, stmts.len() as int, pend), attr_usize(a, "size"@, n, target), attr_usize(a, "align"@, n, align)]
+            fields_built(reg0, scope, stmts, stmts.len() as int, pend) && attr_usize(a, "size"@, n, target) && attr_usize(a, "align"@, n, align)
+            && (first_base_of(pend) is Some
+                || !layout_accepts(pend, target, reg)
+                || exists|regions: Seq<Region>, size: usize, vft: Option<TypeVftable>| #![trigger resolve_regions_spec(reg, p, pend, None, target, vft, regions, size)]
+                        resolve_regions_spec(reg, p, pend, None, target, vft, regions, size)
+                        && (has_base_region(regions) || !alignment_accepts(has_ident(a, "packed"@, n), align, regions, size, reg)))
+}
 }
